@@ -335,15 +335,41 @@ def run(ctx):
             continue
         for sig, what in r[1][0]:
             ctx.violation(sig, what, {"task": list(t)})
+    # the neighbourhood of those cases: near-parabolic orbits on both sides of pericentre, steps of a fraction of |a|^(3/2),
+    # through the solver and through one step of WHFast/jacobi and SABA1 (short alarm as above; the first Newton step overflows
+    # the Stumpff functions for most of them, so the solver's non-convergent branch and its bisection decide the result)
+    near = []
+    for e in (1.0001, 1.0007875632854804, 1.001, 1.003):
+        fmax = math.acos(-1 / e)
+        for f0 in (0.5, 1.5, 2.102575105938506, 2.5, 3.0):
+            f0 = min(f0, 0.97 * fmax)
+            for sf in (1, -1):
+                for dtP in (0.05, 0.2, 2.2714850308839303 / P1, 0.7):
+                    for sign in (1, -1):
+                        st = [("whfast", "jacobi"), ("saba", "1")] if (not quick or (sf * sign > 0 and dtP < 0.3)) else []
+                        near.append((e, -1.0, 1.0, sf * f0, dtP, sign, st))
+    seen_near = set()
+    near = [t for t in near if not (t[:6] in seen_near or seen_near.add(t[:6]))]
+    nres = pool.run_tasks(Case(rebound, not quick), near, timeout=20, chunk=1)
+    for t, r in zip(near, nres):
+        nsteps += len(t[6])
+        if r[0] != "ok":
+            ctx.violation("solver-%s:near-parabolic-lattice:%s" % (r[0], "backward" if t[5] < 0 else "forward"),
+                          "reb_whfast_kepler_solver or a step built on it does not return within 20 s (%s) for e=%r a=%r GM=%r f0=%r dt=%+.17g: %s" % (r[0], t[0], t[1], t[2], t[3], t[5] * t[4] * P1, str(r[1])[-200:]), {"task": list(t)})
+            continue
+        worst = max(worst, r[1][1])
+        for sig, what in r[1][0]:
+            ctx.violation(sig, what, {"task": list(t)})
     # WHFast512 exists only in the AVX512 build: its part runs in a process of its own (mc/w512.py)
     from .. import w512
     n_w512 = w512.run(ctx, "C03")
     cov = {
         "whfast512_cases": n_w512,
         "observed_max_error_in_units_of_the_1ulp_input_effect": worst,
-        "evaluations": len(tasks) + nsteps, "distinct_nontrivial": len(tasks),
+        "near_parabolic_cases": len(spec) + len(near),
+        "evaluations": len(tasks) + len(spec) + len(near) + nsteps, "distinct_nontrivial": len(tasks) + len(near),
         "rule": "e in {0,1e-12,1e-4,0.1,0.5,0.9,0.99,1-1e-6,1+1e-6,1.01,1.5,10,1e3} x a{1e-6,1,1e6} x GM{1e-3,1,1e3} (quick: every third point of the a x GM plane) x 12 phases (peri/apocentre and +-1e-8 around them) x "
-                "|dt|/P in {1e-8,1e-4,9e-3,1.1e-2,0.1,0.5,1,1.5,10,1e3} x sign through reb_whfast_kepler_solver; one step of WHFast x 4 coordinate systems, SABA1, MERCURIUS, TRACE on a sub-lattice, each with G=1 and G in {4, 1/4} (star mass GM/G; quick: one of the two by the sign of dt)",
+                "|dt|/P in {1e-8,1e-4,9e-3,1.1e-2,0.1,0.5,1,1.5,10,1e3} x sign through reb_whfast_kepler_solver; near-parabolic lattice e in {1.0001,1.00079,1.001,1.003} x f0 in +-{0.5,1.5,2.10,2.5,3.0} x |dt|/(2pi|a|^1.5) in {0.05,0.2,0.36,0.7} x sign (each under a 20 s alarm: termination is part of the verdict); one step of WHFast x 4 coordinate systems, SABA1, MERCURIUS, TRACE on a sub-lattice, each with G=1 and G in {4, 1/4} (star mass GM/G; quick: one of the two by the sign of dt)",
         "samples": [list(tasks[0][:6]), list(tasks[-1][:6])], "integrator_steps": nsteps, "exhaustive": True,
     }
     return ctx.finish(LEVEL, cov, assumptions=[
